@@ -16,6 +16,7 @@ Case shapes (JSON):
 import itertools
 import json
 import os
+import re
 import tempfile
 
 from harness import core, pyc
@@ -29,7 +30,7 @@ THEOREMS = [NS + t for t in (
     'C13_pointwise_fn', 'C13_fn_scalar', 'C13_fn_binary', 'C13_fn_unequal_shapes_witness',
     'C13_fit_shape', 'C13_fit_elem', 'C13_fit_trim', 'C13_fit_scalar', 'C13_fit_single_row', 'C13_fit_single_col',
     'C13_fit_uncovered', 'C13_fit_subtarget',
-    'C13_member_range', 'C13_member', 'C13_member_nonblank', 'C13_members_table', 'C13_single_cell', 'C13_cse_meta')]
+    'C13_ctx_stack', 'C13_nested_fit', 'C13_member_range', 'C13_member', 'C13_member_nonblank', 'C13_members_table', 'C13_single_cell', 'C13_cse_meta')]
 DESIGN_REF = 'DESIGN.md §7 C13'
 RULE = ('quick: every pair of operand shapes (scalar or h×w, 1≤h,w≤4: 17² pairs, incompatible pairs included) for '
         'every binary operator + unary minus through eval_formula (elements drawn by the seeded rng from a pool of '
@@ -53,7 +54,9 @@ TRUSTED = ['modelled, not verified: numpy.broadcast on object arrays, openpyxl A
            'CPython set iteration order of small ints']
 REQUIRED_BUCKETS = ['op:scalar-scalar', 'op:scalar-array', 'op:same-shape', 'op:single-row', 'op:single-col',
                     'op:row-col', 'op:incompatible', 'fn:scalars', 'fn:array+scalar', 'fn:equal-shapes',
-                    'fn:unequal-shapes', 'fn:oracle-only', 'fit', 'wb:val', 'wb:op', 'wb:fn', 'wb:1x1']
+                    'fn:unequal-shapes', 'fn:oracle-only', 'fit', 'wb:val', 'wb:op', 'wb:fn', 'wb:1x1',
+                    'op:big', 'op:twins', 'fn:twins', 'wb:chain0', 'wb:chain1', 'wb:chain2', 'wb:chain3',
+                    'wb:chain2:set_value', 'wb:chain3:set_value']
 EXHAUSTIVE = False
 EXPLANATION = ('Shapes are enumerated exhaustively up to 4×4 (operands, results and targets); element values are '
                'sampled. The Lean theorems hold for all shapes and every scalar operation.')
@@ -66,9 +69,25 @@ FNS = {'mod': ('MOD', 2), 'if_': ('IF', 3), 'isnumber': ('ISNUMBER', 1), 'sign':
 # further lifted functions, checked by the implementation-only pointwise oracle (no scalar model here)
 ORACLE_FNS = {'power': ('POWER', 2), 'round_': ('ROUND', 2), 'bitand': ('BITAND', 2), 'left': ('LEFT', 2),
               'iseven': ('ISEVEN', 1), 'n': ('N', 1), 'istext': ('ISTEXT', 1), 'int_': ('INT', 1),
-              'trunc': ('TRUNC', 2), 'find': ('FIND', 2), 'match': ('MATCH', 3)}
+              'trunc': ('TRUNC', 2), 'find': ('FIND', 2), 'match': ('MATCH', 3), 'isnontext': ('ISNONTEXT', 1),
+              'islogical': ('ISLOGICAL', 1), 'isblank': ('ISBLANK', 1), 'isodd': ('ISODD', 1)}
+TYPE_SENSITIVE = ['isnumber', 'istext', 'isnontext', 'islogical', 'isblank', 'n', 'if_', 'exact', 'mod', 'sign',
+                  'abs_', 'iseven', 'isodd']
 POOL = ['n:1/1', 'n:2/1', 'n:3/1', 'n:0/1', 'n:-1/1', 'n:7/1', 's:97', 's:66', 'e:div0', 'e:na', 'b:1', 'z']
 WEIGHTS = [5, 5, 4, 3, 3, 3, 2, 1, 2, 2, 1, 2]
+# (a) magnitudes around and beyond 2^31 / 2^53 / 2^63 / 2^64, all whole numbers (Python ints are exact)
+BIG = ['n:4000000000/1', 'n:2147483648/1', 'n:2147483647/1', 'n:-2147483649/1', 'n:9007199254740992/1',
+       'n:9007199254740993/1', 'n:4611686018427387904/1', 'n:9223372036854775807/1', 'n:-9223372036854775808/1',
+       'n:9000000000000000000/1', 'n:18446744073709551616/1', 'n:3/1', 'n:-1/1', 'n:0/1']
+# the same with some of them typed as Python floats (exactly representable ones; integral floats become ints again)
+BIGMIX = BIG + ['nf:4000000000/1', 'nf:9007199254740992/1', 'nf:9000000000000000000/1', 'nf:3/1', 'nf:-2147483648/1']
+# small numbers with dyadic fractions, ints and floats mixed (float arithmetic exact or correctly rounded)
+FRAC = ['n:1/2', 'n:5/2', 'n:-1/4', 'n:3/1', 'n:2/1', 'nf:2/1', 'n:0/1', 'n:7/1', 'nf:7/1', 'n:-3/1']
+# (b) a value next to its differently typed twins
+TWINS = ['n:7/1', 's:55', 'n:1/1', 'b:1', 's:49', 'n:0/1', 'b:0', 'z', 's:', 's:48', 'n:5/2', 's:50,46,53',
+         'nf:7/1', 's:78,111,110,101']          # … "7", "1", "0", "", "2.5", 7.0, "None"
+TWINS_WB = [t for t in TWINS if t not in ('s:',)]
+NOBLANK = [t for t in POOL if t != 'z']
 SHAPES = [None] + [(h, w) for h in range(1, 5) for w in range(1, 5)]      # None = scalar
 ANCHORS = ['A', 'F', 'K']            # top-left columns of the operand blocks (rows 1..4)
 TARGET_ROW, TARGET_COL = 3, 16       # P3
@@ -85,13 +104,20 @@ def shape(o):
     return (len(o), len(o[0])) if is_arr(o) else None
 
 
+def norm(tok):
+    """protocol form of a case token: `nf:p/q` (a number handed to pycel as a Python FLOAT) is the number p/q"""
+    return 'n:' + tok[3:] if tok.startswith('nf:') else tok
+
+
 def proto(o):
     if is_arr(o):
-        return ' '.join([f'a:{len(o)}:{len(o[0])}'] + [t for row in o for t in row])
-    return o
+        return ' '.join([f'a:{len(o)}:{len(o[0])}'] + [norm(t) for row in o for t in row])
+    return norm(o)
 
 
 def pyval(tok):
+    if tok.startswith('nf:'):
+        return float(core.dec('n:' + tok[3:]))
     v = core.dec(tok)
     from fractions import Fraction
     if isinstance(v, Fraction):
@@ -105,8 +131,13 @@ def pyopnd(o):
     return pyval(o)
 
 
-def draw(rng, shp):
-    pick = lambda: rng.choices(POOL, WEIGHTS)[0]     # noqa
+def draw(rng, shp, pool=None):
+    if pool is None:
+        pick = lambda: rng.choices(POOL, WEIGHTS)[0]     # noqa
+    else:
+        pick = lambda: rng.choice(pool)     # noqa
+        if 'z' not in pool and shp == (1, 1):
+            return [[pick()]]
     if shp is None:
         return pick()
     if shp == (1, 1):
@@ -144,8 +175,8 @@ def block_ref(anchor, o):
 
 def const_text(tok):
     v = pyval(tok)
-    if v is True:
-        return 'TRUE'
+    if isinstance(v, bool):
+        return 'TRUE' if v else 'FALSE'
     if isinstance(v, str):
         return v if v in core.ERR_TAGS else '"%s"' % v
     return str(v)
@@ -153,7 +184,7 @@ def const_text(tok):
 
 def const_ok(o):
     toks = [t for row in o for t in row] if is_arr(o) else [o]
-    return all(t != 'z' for t in toks)
+    return all(t != 'z' and not t.startswith('nf:') for t in toks)
 
 
 def const_ref(o):
@@ -283,6 +314,29 @@ def cases(tier, rng):
                 yield {'k': 'fn', 'fn': name, 'args': args}
                 if arity == 2:
                     yield {'k': 'fn', 'fn': name, 'args': [draw(rng, sa), draw(rng, sa)]}
+        # (a) big magnitudes and mixed int/float typing: exact against Python's own scalar arithmetic
+        compat = [(sa, sb) for sa, sb in itertools.product(SHAPES, SHAPES)
+                  if bshape(sa, sb) is not None and (sa or sb)]
+        for sa, sb in (compat if thorough else rng.sample(compat, 60) + [((4, 1), (4, 1)), ((1, 2), None),
+                                                                         (None, (2, 2)), ((2, 2), (2, 2))]):
+            for op in ('Add', 'Sub', 'Mult', rng.choice(['Div', 'Eq', 'Lt', 'GtE', 'BitAnd'])):
+                pool = rng.choice([BIG, BIG, BIGMIX, FRAC])
+                yield {'k': 'op', 'op': op, 'L': draw(rng, sa, pool), 'R': draw(rng, sb, pool), 'mode': 'range',
+                       'pool': 'big'}
+        # (b) typed twins under type-sensitive lifted functions and operators; repeated elements
+        for name in TYPE_SENSITIVE:
+            arity = (FNS.get(name) or ORACLE_FNS[name])[1]
+            for sa in [(1, 4), (2, 2), (4, 4), (3, 1), (4, 3)]:
+                args = [draw(rng, sa, TWINS)] + [draw(rng, rng.choice([None, sa]), TWINS) for _ in range(arity - 1)]
+                yield {'k': 'fn', 'fn': name, 'args': args, 'pool': 'twins'}
+            # every twin once in a single row, in both orders (a cache keyed on == or str() meets them in turn)
+            row = [list(TWINS)[:4], list(TWINS)[4:8], list(TWINS)[8:12]]
+            for arr in (row, [r[::-1] for r in row][::-1]):
+                args = [arr] + [rng.choice(['n:1/1', 'n:2/1']) for _ in range(arity - 1)]
+                yield {'k': 'fn', 'fn': name, 'args': args, 'pool': 'twins'}
+        for sa, sb in rng.sample(compat, 40):
+            yield {'k': 'op', 'op': rng.choice(['Eq', 'NotEq', 'Lt', 'GtE', 'Add', 'Mult', 'BitAnd']),
+                   'L': draw(rng, sa, TWINS), 'R': draw(rng, sb, TWINS), 'mode': 'range', 'pool': 'twins'}
         table = [['n:1/1'], ['n:2/1'], ['n:3/1'], ['s:97']]
         for sa in SHAPES:
             yield {'k': 'fn', 'fn': 'match', 'args': [draw(rng, sa), table, 'n:0/1']}
@@ -320,6 +374,40 @@ def cases(tier, rng):
                 args = [draw(rng, sa)] + [draw(rng, rng.choice([None, sa])) for _ in range(arity - 1)]
                 yield {'k': 'wb', 'h': h, 'w': w, 'form': {'t': 'fn', 'fn': name, 'args': args}}
 
+    # (c) nested evaluation contexts: the operands are reached through chains of 0..3 uncomputed formula cells
+    # (in-memory workbook, no stored values), optionally after set_value on the deepest input, optionally with an
+    # operand block that is itself the target of an (identity) array formula; result shape ≠ target shape
+    for _ in range(reps):
+        for (h, w) in SHAPES[1:]:
+            for d in range(4):
+                others = [sh for sh in SHAPES if sh != (h, w)]
+                forms = [{'t': 'val', 'res': draw(rng, rng.choice(others), NOBLANK)}]
+                sa, sb = rng.choice([p for p in compat if bshape(*p) != (h, w)])
+                forms.append({'t': 'op', 'op': rng.choice(binops), 'L': draw(rng, sa, NOBLANK),
+                              'R': draw(rng, sb, NOBLANK)})
+                name = rng.choice(list(FNS))
+                sa = rng.choice(others[1:])
+                forms.append({'t': 'fn', 'fn': name,
+                              'args': [draw(rng, sa, NOBLANK)] + [draw(rng, rng.choice([None, sa]), NOBLANK)
+                                                                  for _ in range(FNS[name][1] - 1)]})
+                forms.append({'t': 'op', 'op': rng.choice(['Add', 'Mult']), 'L': draw(rng, rng.choice(others[1:]), BIG),
+                              'R': draw(rng, None, BIG)})
+                forms.append({'t': 'fn', 'fn': rng.choice(['isnumber', 'if_', 'exact']),
+                              'args': [draw(rng, rng.choice(others[1:]), TWINS_WB), 'n:1/1', 's:55']})
+                for form in forms:
+                    if form['t'] == 'fn':
+                        form['args'] = form['args'][:FNS[form['fn']][1]]
+                    c = {'k': 'wb', 'h': h, 'w': w, 'form': form, 'chain': d}
+                    if rng.random() < 0.5:
+                        c['mf'] = True
+                    if rng.random() < 0.4:
+                        c['setv'] = True
+                    if d and rng.random() < 0.3:
+                        c['cseop'] = True
+                    if form['t'] == 'fn' and 'z' in json.dumps(form) and d:
+                        continue            # a blank reached through a reference formula is 0, not blank
+                    yield c
+
 
 # ---------------------------------------------------------------------------------------------------------------
 # implementation
@@ -344,12 +432,28 @@ def run_workbook(c):
     from pycel import ExcelCompiler
     from pycel.excelformula import FormulaEvalError
     h, w = c['h'], c['w']
-    f, cells, _ = formula_of(c['form'])
+    f, cells, _ranges = formula_of(c['form'])
     wb = openpyxl.Workbook()
     ws = wb.active
     ws.title = 'Sheet1'
+    d = c.get('chain', 0)
+    hop = lambda a, k: re.sub(r'^[A-Z]+', lambda m: col(col_idx(m.group(0)) + 30 * k), a)     # noqa
+    deep = {}
     for a, v in cells.items():
-        ws[a] = v
+        for k in range(d):
+            ws[hop(a, k)] = '=' + hop(a, k + 1)
+        ws[hop(a, d)] = v
+        deep[a] = hop(a, d)
+    if c.get('cseop') and d:
+        # first-level operand blocks become targets of identity array formulas over the next level
+        for ref in _ranges:
+            if ':' in ref:
+                a0, a1 = ref.split(':')
+                ws[a0] = ArrayFormula(ref, f'={hop(a0, 1)}:{hop(a1, 1)}')
+    changed = None
+    if c.get('setv') and cells:
+        changed = sorted(cells)[0]
+        ws[deep[changed]] = 99          # the value before set_value
     top = f'{col(TARGET_COL)}{TARGET_ROW}'
     ws[top] = ArrayFormula(target_addr(h, w), f)
     if c.get('file'):
@@ -368,6 +472,11 @@ def run_workbook(c):
         return tuple(tuple(comp.evaluate(f'Sheet1!{col(TARGET_COL + j)}{TARGET_ROW + i}') for j in range(w))
                      for i in range(h))
     try:
+        if changed is not None:
+            # everything computed once with the old input, then the deep input changes
+            comp.evaluate('Sheet1!' + target_addr(h, w))
+            members()
+            comp.set_value('Sheet1!' + deep[changed], cells[changed])
         if c.get('mf'):                 # member cells first, then the target range
             mem = members()
             res = comp.evaluate('Sheet1!' + target_addr(h, w))
@@ -422,6 +531,8 @@ def model_lines(c):
         return ['c13 ' + form_line({'t': 'fn', **c})]
     if k == 'fit':
         return [f"c13 fit {c['h']} {c['w']} {proto(c['res'])}"]
+    if 'chain' in c:
+        return [f"c13 wbc {c['chain']} {TARGET_ROW} {TARGET_COL} {c['h']} {c['w']} {form_line(c['form'])}"]
     return [f"c13 wb {TARGET_ROW} {TARGET_COL} {c['h']} {c['w']} {form_line(c['form'])}"]
 
 
@@ -491,9 +602,13 @@ def governed(c):
 def bucket(c):
     form = form_of(c)
     if c['k'] == 'wb':
+        if 'chain' in c:
+            return f"wb:chain{c['chain']}" + (':set_value' if c.get('setv') else '')
         if c['h'] == 1 and c['w'] == 1:
             return 'wb:1x1'
         return 'wb:' + form['t']
+    if c.get('pool'):
+        return f"{c['k']}:{c['pool']}"
     if c['k'] == 'fit':
         return 'fit'
     if c['k'] == 'op':
@@ -648,7 +763,8 @@ def oracles(results):
             # the raw value the statement talks about
             if form['t'] == 'val':
                 res = form['res']
-                raw = (len(res), len(res[0]), res) if is_arr(res) else (1, 1, [[res]])
+                raw = (len(res), len(res[0]), [[norm(t) for t in row] for row in res]) if is_arr(res) \
+                    else (1, 1, [[norm(res)]])
             else:
                 raw = expected_raw(form)
                 if raw is None:
